@@ -514,8 +514,31 @@ func (n *c17Node) visitorRisk() bool {
 	if n.K == "bin" && n.Fn != "" && n.mentions("C") {
 		return true
 	}
+	// a method call whose RECEIVER mentions the placeholder: the first check types the receiver interface{}
+	// (the placeholder is an unknown name) and then does not visit the arguments at all (finding
+	// C03-unchecked-arguments), so PatchOperators resolves every overloaded occurrence inside the arguments on
+	// nodes without a type; the second check, after the visitor, types them properly - too late
+	if n.K == "meth" && len(n.Kids) > 0 && n.Kids[0].mentions("C") {
+		for _, a := range n.Kids[1:] {
+			if a.hasOverloaded() {
+				return true
+			}
+		}
+	}
 	for _, k := range n.Kids {
 		if k.visitorRisk() {
+			return true
+		}
+	}
+	return false
+}
+
+func (n *c17Node) hasOverloaded() bool {
+	if n.K == "bin" && n.Fn != "" {
+		return true
+	}
+	for _, k := range n.Kids {
+		if k.hasOverloaded() {
 			return true
 		}
 	}
